@@ -283,6 +283,13 @@ func (x *Exec) checkLoopBalance(fr *Frame, st *State, atHead []heldLock, lc loop
 	x.oblige(fr, st, "balanced", fmt.Sprintf("loop%d", lc.ord), BoolLit(same), n)
 	ob := x.Obls[len(x.Obls)-1]
 	ob.Tag = "C14"
+	if fr.top != nil && fr.top.Contract != nil {
+		for _, g := range fr.top.Contract.Ghost {
+			if strings.HasPrefix(g, "balanced-also ") {
+				ob.Tag += "," + strings.Join(strings.Fields(strings.TrimPrefix(g, "balanced-also ")), ",")
+			}
+		}
+	}
 	if !same {
 		ob.Pos = fmt.Sprintf("%s: held at the end of an iteration: %v", x.pos(n), descs)
 	}
